@@ -66,6 +66,9 @@ def prelude(ft: Features):
             # a rule whose conclusion is ground while its hypotheses are schematic
             ('block', [('e', 'rule-t.0', (TH, A('\\f', V('ph0')))),
                        ('a', 'rule-t', (TH, A('\\g', A('c1'), A('c0'), A('c1'))))]),
+            # a rule without any metavariable: ground hypothesis, ground conclusion
+            ('block', [('e', 'rule-u.0', (TH, A('\\f', A('c0')))),
+                       ('a', 'rule-u', (TH, A('\\g', A('c0'), A('c0'), A('c0'))))]),
         ]
     return st
 
@@ -140,6 +143,10 @@ def derivations(ft: Features, height: int, npool: int, max_per_level: int = 400)
         add(IMP(A('\\f', b), A('\\g', b, a, A('c1'))), apply('ax-c', frames, {'ph0': a, 'ph1': b}, []), 0)
     if ft.notation:
         add(A('\\nt', A('c1')), ('ax-n', []), 0)
+    G = A('\\g', A('c0'), A('c0'), A('c0'))
+    if ft.rules:
+        # the ground rule's conclusion as antecedent of a prop-1 instance, so that modus ponens takes it as MINOR premise
+        add(IMP(G, IMP(A('c0'), G)), apply('proof-rule-prop-1', frames, {'ph0': G, 'ph1': A('c0')}, []), 0)
     for h in range(1, height + 1):
         cur = list(thms.values())
         new = 0
@@ -154,6 +161,10 @@ def derivations(ft: Features, height: int, npool: int, max_per_level: int = 400)
                 if add(A('\\f', t1), apply('rule-r', frames, {'ph0': t1}, [tr1]), h):
                     new += 1
         if ft.rules:
+            for t1, tr1, h1 in cur:
+                if t1 == A('\\f', A('c0')) and h1 == h - 1:
+                    if add(G, ('rule-u', [tr1]), h):
+                        new += 1
             for t1, tr1, h1 in cur:
                 if t1[0] == 'app' and t1[1] == '\\f' and h1 == h - 1:
                     # every proof of the ground conclusion is a different derivation: key it by its premise
@@ -208,5 +219,27 @@ def big_database(n: int, layout: str = 'none'):
         t = IMP(A(k), t)
     target = IMP(t, IMP(A('c0'), t))
     tree = apply('proof-rule-prop-1', frames, {'ph0': t, 'ph1': A('c0')}, [])
+    proof = mmref.encode_compressed(tree, [], layout)
+    return st + [('p', 'goal', (TH, target), proof)], target
+
+
+def many_vars_database(layout: str = 'none', swap: bool = False):
+    """twelve pattern variables ph0..ph11 declared in numeric order; a constructor, an axiom and a rule that mix ph2 and
+    ph10 (whose NAMES sort the other way round); the target is a ground instance that tells the two apart"""
+    ft = Features()
+    st = prelude(ft)
+    st += [('c', ('\\h',)), ('v', tuple(f'ph{i}' for i in range(3, 12)))]
+    st += [('f', f'ph{i}-is-pattern', '#Pattern', f'ph{i}') for i in range(3, 12)]
+    p2, p10 = V('ph2'), V('ph10')
+    H = lambda a, b: A('\\h', a, b)  # noqa: E731
+    st += [('a', 'h-is-pattern', (PAT, H(p2, p10))),
+           ('a', 'ax-m', (TH, IMP(H(p2, p10), IMP(p10, H(p2, p10))))),
+           ('block', [('e', 'rule-m.0', (TH, H(p2, p10))), ('a', 'rule-m', (TH, IMP(p10, p2)))])]
+    WFF['\\h'] = 'h-is-pattern'
+    v = mmref.verify_db(st)
+    frames = {k: f for k, f in v.labels.items() if isinstance(f, mmref.Frame)}
+    a, b = (A('c1'), A('c0')) if swap else (A('c0'), A('c1'))
+    target = IMP(H(a, b), IMP(b, H(a, b)))
+    tree = apply('ax-m', frames, {'ph2': a, 'ph10': b}, [])
     proof = mmref.encode_compressed(tree, [], layout)
     return st + [('p', 'goal', (TH, target), proof)], target
